@@ -492,39 +492,76 @@ Definition read {A} (c : cls) (a : string) (v : A) : option A := if has_attr c a
 Definition bind {A B} (x : option A) (f : A -> option B) : option B :=
   match x with Some a => f a | None => None end.
 
-Inductive fout := Unc | OkV | OkSelf | ErrV.     (* not computed | value | value is the future itself | error *)
+(* User payloads: what a computed future holds as its value, the argument its error was built
+   with, the value of a generator.Value, the value of a scoped value / override.  Only the shape
+   matters to the code that prints it: a tuple on the right of "%" is an argument list.  PMulti is
+   an object whose (well-behaved) repr spans several lines; PFut a computed ConstFuture (ok) or
+   ErrorFuture held as a value.  The text of repr(payload) is not modelled: a summary records
+   WHICH payload a text shows. *)
+Inductive pval :=
+| PInt (z : Z) | PNone | PStr (s : string) | PMulti
+| PTuple (l : list pval) | PList (l : list pval) | PDict (kv : list (pval * pval))
+| PFut (ok : bool)
+| PSelf.     (* the printing future itself, as FutureBase.__repr__ prints it inside another text: "<class ..> (computed, = self)" *)
+
+(* Python's  fmt % arg  where fmt has n conversion specifiers: a tuple operand IS the argument
+   list, any other operand is the single argument; a count mismatch raises TypeError (None).
+   (Objects/unicodeobject.c PyUnicode_Format) *)
+Definition pct_args (arg : pval) : list pval := match arg with PTuple l => l | _ => [arg] end.
+Definition pct (n : nat) (arg : pval) : option (list pval) :=
+  if Nat.eqb (List.length (pct_args arg)) n then Some (pct_args arg) else None.
+(* "...%r..." % arg : the payload the one specifier shows *)
+Definition pct1 (arg : pval) : option pval :=
+  match pct 1 arg with Some (x :: _) => Some x | _ => None end.
+
+(* a lower bound of len(repr(p)), enough to decide the cut of debug.str for the payloads the
+   generator produces (it produces none whose printed line is near the limit) *)
+Fixpoint plen (p : pval) : Z :=
+  match p with
+  | PInt _ | PNone | PMulti | PFut _ | PSelf => 1
+  | PStr s => Z.of_nat (String.length s)
+  | PTuple l | PList l => (fix go (l : list pval) : Z := match l with [] => 0 | x :: t => plen x + go t end) l
+  | PDict kv => (fix go (l : list (pval * pval)) : Z :=
+                   match l with [] => 0 | (k, v) :: t => plen k + plen v + go t end) kv
+  end%Z.
+
+(* not computed | value | value is the future itself | error built with one argument *)
+Inductive fout := Unc | OkV (p : pval) | OkSelf | ErrV (p : pval).
 
 Inductive obj :=
 | OFut (c : cls) (o : fout)
 | OTask (o : fout) (iter : Z) (gen_open : bool) (deps : list obj)
 | OBatch (c : cls) (o : fout) (items : list obj)
 | OSched (tasks batches : list obj) (active : option obj)
-| OScoped (c : cls)
+| OScoped (c : cls) (p : pval)          (* the scoped value's value / the value an override installs *)
 | OAGen (stopped : bool)
-| OValue.
+| OValue (p : pval).
 
 Definition cls_of (o : obj) : cls :=
   match o with
   | OFut c _ => c | OTask _ _ _ _ => CAsyncTask | OBatch c _ _ => c | OSched _ _ _ => CScheduler
-  | OScoped c => c | OAGen _ => CAsyncGen | OValue => CValue
+  | OScoped c _ => c | OAGen _ => CAsyncGen | OValue _ => CValue
   end.
 
 Definition out_of (o : obj) : fout :=
   match o with OFut _ f => f | OTask f _ _ _ => f | OBatch _ f _ => f | _ => Unc end.
 
-Inductive fsum := FNot | FOk | FSelf | FErr.
-Inductive tstatus := TOk | TErr | TBlocked (n : Z) | TWaiting | TAlmost.
+(* FOk p / FErr p / TOk p / TErr p: the text shows repr(p) as the value / as the error's argument *)
+Inductive fsum := FNot | FOk (shown : pval) | FSelf | FErr (shown : pval).
+Inductive tstatus := TOk (shown : pval) | TErr (shown : pval) | TBlocked (n : Z) | TWaiting | TAlmost.
 Inductive bstatus := BCancelled | BFlushed | BPending.
 Inductive summary :=
 | SFuture (s : fsum)                         (* "<class ...> (computed, = ..)" etc.            *)
 | STask (st : tstatus) (step : Z)            (* "@asynq f(..) (status, step)", step = index - 1 *)
 | SBatch (st : bstatus) (n : Z)              (* "mod.Cls (pending, 3 items)"                     *)
 | SSched (nt nb : Z) (active : option summary)
-| SScoped | SOverride | SPropOverride
+| SScoped (shown : pval) | SOverride (shown : pval) | SPropOverride (shown : pval)
 | SAGen (stopped : bool)
-| SValue.
+| SValue (shown : pval).
 
-(* FutureBase.__repr__ futures.py 162-180 (self._in_repr is false on entry from outside) *)
+(* FutureBase.__repr__ futures.py 171-189 (self._in_repr is false on entry from outside).  The
+   payload reaches the text by concatenation ("= " + repr(self.value())): it is never the right
+   operand of "%", so every payload is shown as itself. *)
 Definition repr_future (c : cls) (o : fout) : option summary :=
   bind (read c "_in_repr" false) (fun _ =>
   bind (read c "_value" o) (fun v =>                       (* is_computed() *)
@@ -533,9 +570,10 @@ Definition repr_future (c : cls) (o : fout) : option summary :=
   | _ =>
     bind (read c "_error" v) (fun e =>                     (* self.error() *)
     match e with
-    | ErrV => Some (SFuture FErr)
+    | ErrV p => Some (SFuture (FErr p))                      (* "error = " + repr(self.error()) *)
     | OkSelf => Some (SFuture FSelf)                        (* self.value() is self *)
-    | _ => Some (SFuture FOk)
+    | OkV p => Some (SFuture (FOk p))                        (* "= " + repr(self.value()) *)
+    | Unc => Some (SFuture FNot)
     end)
   end)).
 
@@ -556,14 +594,16 @@ Definition str_task (o : fout) (iter : Z) (gen_open : bool) (deps : list obj) : 
          Some (STask (if g then TWaiting else TAlmost) (it - 1))))
   | _ =>
     bind (read c "_error" v) (fun e =>
-    Some (STask (match e with ErrV => TErr | _ => TOk end) (it - 1)))
+    (* "= " + repr(self.value()) / "error = " + repr(self.error()); for a task that returned
+       itself repr(self.value()) is FutureBase.__repr__ of the task: "<class ..> (computed, = self)" *)
+    Some (STask (match e with ErrV p => TErr p | OkV p => TOk p | _ => TOk PSelf end) (it - 1)))
   end))))).
 
 (* BatchBase.__str__ batching.py 166-175 *)
 Definition str_batch (c : cls) (o : fout) (items : list obj) : option summary :=
   bind (read c "_value" o) (fun v =>
   bind (match v with Unc => Some BPending
-        | _ => bind (read c "_error" v) (fun e => Some (match e with ErrV => BCancelled | _ => BFlushed end))
+        | _ => bind (read c "_error" v) (fun e => Some (match e with ErrV _ => BCancelled | _ => BFlushed end))
         end) (fun st =>
   bind (read c "items" items) (fun its => Some (SBatch st (Z.of_nat (List.length its)))))).
 
@@ -571,7 +611,13 @@ Definition str_batch (c : cls) (o : fout) (items : list obj) : option summary :=
    (work/fixes/C18-asyncgen-repr.diff); the code as found read "stopped" (generator.py 176) *)
 Definition AGEN_REPR_ATTR := "is_stopped".
 
-Definition str_obj_with (agen_attr : string) : obj -> option summary :=
+(* the right operand Value.__repr__ hands to "<Value: %r>" % ...: the repaired code wraps the
+   payload in a 1-tuple (work/fixes/C18-value-repr-tuple.diff); the code as found passed
+   self.value bare (generator.py 87) *)
+Definition VALUE_OPERAND (v : pval) : pval := PTuple [v].
+Definition VALUE_OPERAND_AS_FOUND (v : pval) : pval := v.
+
+Definition str_obj_gen (agen_attr : string) (value_operand : pval -> pval) : obj -> option summary :=
   fix str_obj (o : obj) : option summary :=
   match o with
   | OFut c f => repr_future c f                                  (* no __str__: object.__str__ -> __repr__ *)
@@ -588,34 +634,57 @@ Definition str_obj_with (agen_attr : string) : obj -> option summary :=
     | Some t => bind (str_obj t) (fun s =>
                 Some (SSched (Z.of_nat (List.length ts')) (Z.of_nat (List.length bs')) (Some s)))
     end))))
-  | OScoped c =>
+  | OScoped c p =>
     match c with
-    | CScopedValue => bind (read c "_value" tt) (fun _ => Some SScoped)          (* scoped_value.py 52-56 *)
-    | CSVOverride => bind (read c "_target" tt) (fun _ => bind (read c "_value" tt) (fun _ => Some SOverride))
+    (* scoped_value.py 52-56: "AsyncScopedValue(%s)" % str(self._value) / % repr(self._value): the
+       operand is already a string *)
+    | CScopedValue => bind (read c "_value" p) (fun v => Some (SScoped v))
+    (* scoped_value.py 72-76, 93-97: explicit argument tuples (self._target, self._value) *)
+    | CSVOverride => bind (read c "_target" tt) (fun _ => bind (read c "_value" p) (fun v =>
+                     bind (pct 2 (PTuple [PNone; v])) (fun a => option_map SOverride (nth_error a 1))))
     | CPropOverride => bind (read c "_target" tt) (fun _ => bind (read c "_property_name" tt) (fun _ =>
-                       bind (read c "_value" tt) (fun _ => Some SPropOverride)))
+                       bind (read c "_value" p) (fun v =>
+                       bind (pct 3 (PTuple [PNone; PNone; v])) (fun a => option_map SPropOverride (nth_error a 2)))))
     | _ => None
     end
   | OAGen st =>                                                   (* generator.py 173-177 *)
     bind (read CAsyncGen "generator" tt) (fun _ =>
     bind (read CAsyncGen agen_attr st) (fun s => Some (SAGen s)))
-  | OValue => bind (read CValue "value" tt) (fun _ => Some SValue) (* generator.py 86-87 *)
+  | OValue p =>                                                   (* generator.py 86-87: "<Value: %r>" % operand *)
+    bind (read CValue "value" p) (fun v => option_map SValue (pct1 (value_operand v)))
   end.
 
+Definition str_obj_with (agen_attr : string) := str_obj_gen agen_attr VALUE_OPERAND.
 Definition str_obj := str_obj_with AGEN_REPR_ATTR.
 
 (* repr(): classes with only __str__ (AsyncTask, BatchBase) inherit FutureBase.__repr__;
    TaskScheduler.__repr__ = __str__; the others define __repr__ only *)
-Definition repr_obj_with (agen_attr : string) (o : obj) : option summary :=
+Definition repr_obj_gen (agen_attr : string) (value_operand : pval -> pval) (o : obj) : option summary :=
   match o with
   | OTask f _ _ _ => repr_future CAsyncTask f
   | OBatch c f _ => repr_future c f
-  | _ => str_obj_with agen_attr o
+  | _ => str_obj_gen agen_attr value_operand o
   end.
+Definition repr_obj_with (agen_attr : string) := repr_obj_gen agen_attr VALUE_OPERAND.
 Definition repr_obj := repr_obj_with AGEN_REPR_ATTR.
+
+(* debug.str = qcore.safe_str(obj, DEBUG_STR_REPR_MAX_LENGTH): an exception becomes the
+   "<n/a: str(...) raised" text, a text longer than the limit is cut and ends in "..."
+   (debug.py 49, 265-266; qcore/helpers.py 214-226) *)
+Definition DEBUG_STR_REPR_MAX_LENGTH : Z := 240.
+Definition fsum_len (f : fsum) : Z := match f with FOk p | FErr p => plen p | _ => 0%Z end.
+Fixpoint summary_len (s : summary) : Z :=
+  match s with
+  | SFuture f => fsum_len f
+  | STask (TOk p) _ | STask (TErr p) _ => plen p
+  | SSched _ _ (Some a) => summary_len a
+  | SScoped p | SOverride p | SPropOverride p | SValue p => plen p
+  | _ => 0%Z
+  end.
 
 Inductive dline :=
 | DObj (s : option summary)       (* debug.str(obj): qcore.safe_str never raises; None = "<n/a: str(...) raised" *)
+| DCut                            (* debug.str(obj) of a text longer than DEBUG_STR_REPR_MAX_LENGTH: cut, ends in "..." *)
 | DEllipsis                       (* "..."                     async_task.py 367-369 *)
 | DDeps | DNoDeps                 (* "Dependencies:" / "No dependencies."   370-377 *)
 | DPriority | DItems | DNoItems   (* batching.py 177-185 *)
@@ -629,24 +698,30 @@ Definition has_dump (c : cls) : bool :=
   | _ => true
   end.
 
+Definition debug_str (s : option summary) : dline :=
+  match s with
+  | Some x => if (DEBUG_STR_REPR_MAX_LENGTH <? summary_len x)%Z then DCut else DObj s
+  | None => DObj None
+  end.
+
 (* dump(indent): list of (indent, line) written through debug.write *)
 Fixpoint dump_obj (o : obj) (indent : Z) : list (Z * dline) :=
   match o with
   | OTask _ _ _ ds =>                                             (* async_task.py 366-377 *)
     if (MAX_DUMP_INDENT <? indent)%Z then [((indent + 1)%Z, DEllipsis)]
-    else (indent, DObj (str_obj o)) ::
+    else (indent, debug_str (str_obj o)) ::
          match ds with
          | [] => [((indent + 1)%Z, DNoDeps)]
          | _ => ((indent + 1)%Z, DDeps) :: flat_map (fun d => dump_obj d (indent + 2)%Z) ds
          end
   | OBatch _ _ its =>                                             (* batching.py 177-185 *)
-    (indent, DObj (str_obj o)) :: ((indent + 1)%Z, DPriority) ::
+    (indent, debug_str (str_obj o)) :: ((indent + 1)%Z, DPriority) ::
     match its with
     | [] => [((indent + 1)%Z, DNoItems)]
     | _ => ((indent + 1)%Z, DItems) :: flat_map (fun d => dump_obj d (indent + 2)%Z) its
     end
   | OSched ts bs _ =>                                             (* scheduler.py 266-277 *)
-    (indent, DObj (str_obj o)) ::
+    (indent, debug_str (str_obj o)) ::
     (match ts with
      | [] => [((indent + 1)%Z, DNoTasks)]
      | _ => ((indent + 1)%Z, DTaskQueue) :: flat_map (fun d => dump_obj d (indent + 2)%Z) ts
@@ -655,7 +730,7 @@ Fixpoint dump_obj (o : obj) (indent : Z) : list (Z * dline) :=
      | [] => []
      | _ => ((indent + 1)%Z, DBatches) :: flat_map (fun d => dump_obj d (indent + 2)%Z) bs
      end)
-  | _ => [(indent, DObj (str_obj o))]                             (* FutureBase.dump futures.py 182-183 *)
+  | _ => [(indent, debug_str (str_obj o))]                             (* FutureBase.dump futures.py 182-183 *)
   end.
 
 Inductive res (A : Type) := Returned (a : A) | Raised | NoMethod.
